@@ -25,6 +25,32 @@ func checkC14(c *Ctx, w *World) {
 
 	statusRules(m, c, func(r string) string { return r })
 
+	delayRules(m, c, func(r string) string { return r })
+
+	// ---- C14.revalidate: every store to current is justified in its own critical section
+	for _, fn := range []*ssa.Function{m.muc, m.sft, m.delayed} {
+		for _, a := range m.ai.ByFn[fn] {
+			if a.Field != "multiEndpoint.current" || a.What != "store" {
+				continue
+			}
+			st := a.Instr.(*ssa.Store)
+			construct := fmt.Sprintf("current-store in %s", fname(fn))
+			just, why := justifiedStore(m, fn, st)
+			if just {
+				c.ok("C14.revalidate", construct, p.ipos(st), why)
+			} else {
+				c.fail("C14.revalidate", construct, p.ipos(st), why)
+			}
+		}
+	}
+	delayedSwitchRule(m, c)
+}
+
+// delayRules: the immediate / delayed decision of switchFromTo as exact truth tables. Shared by C14 (switching delay)
+// and C13 ("when the current endpoint is known to be unavailable or gone, Current() is the top available endpoint when
+// the triggering call returns": the immediate branch must be taken then, whatever else is pending).
+func delayRules(m *mectx, c *Ctx, R func(string) string) {
+	p := m.p
 	// ---- C14.delay (switchFromTo)
 	f, t := m.sft.Params[1], m.sft.Params[2]
 	atoms := []atomDef{
@@ -46,36 +72,19 @@ func checkC14(c *Ctx, w *World) {
 	for _, a := range m.ai.ByFn[m.sft] {
 		if a.Field == "multiEndpoint.current" && a.What == "store" {
 			nim++
-			eq, wit := cs.Equiv(cs.OnlyNamed(cs.Reach(a.Instr)), immediate)
-			c.check(eq, "C14.delay", "switchFromTo: immediate switch", p.ipos(a.Instr), "current changes inside the triggering call ⇔ target differs ∧ (no delay configured ∨ no current endpoint ∨ current is unavailable)", "an immediate switch away from an available/recovering endpoint is possible although a delay is configured (or a due switch is not immediate): "+wit)
+			eq, wit := cs.EquivStrict(cs.Reach(a.Instr), immediate)
+			c.check(eq, R("C14.delay"), "switchFromTo: immediate switch", p.ipos(a.Instr), "current changes inside the triggering call ⇔ target differs ∧ (no delay configured ∨ no current endpoint ∨ current is unavailable)", "an immediate switch away from an available/recovering endpoint is possible although a delay is configured (or a due switch is not immediate): "+wit)
 		}
 	}
 	eachInstr(m.sft, func(in ssa.Instruction) {
 		if call, ok := in.(*ssa.Call); ok && isTimeAfterFunc(&call.Call) {
 			ndl++
-			eq, wit := cs.Equiv(cs.OnlyNamed(cs.Reach(call)), cs.And(cs.Not(A("alreadyCurrent")), cs.Not(cs.Or(A("noDelay"), A("fromNil"), A("fromUnavailable")))))
-			c.check(eq && isLoadOf(call.Call.Args[0], "multiEndpoint.switchingDelay"), "C14.delay", "switchFromTo: delayed switch", p.ipos(call), "a timer of switchingDelay is armed exactly in the complementary case", "the delayed switch is not armed exactly when the immediate one is not taken: "+wit)
+			eq, wit := cs.EquivStrict(cs.Reach(call), cs.And(cs.Not(A("alreadyCurrent")), cs.Not(cs.Or(A("noDelay"), A("fromNil"), A("fromUnavailable")))))
+			c.check(eq && isLoadOf(call.Call.Args[0], "multiEndpoint.switchingDelay"), R("C14.delay"), "switchFromTo: delayed switch", p.ipos(call), "a timer of switchingDelay is armed exactly in the complementary case", "the delayed switch is not armed exactly when the immediate one is not taken: "+wit)
 		}
 	})
-	c.floor("C14.delay", nim+ndl, 2)
+	c.floor(R("C14.delay"), nim+ndl, 2)
 
-	// ---- C14.revalidate: every store to current is justified in its own critical section
-	for _, fn := range []*ssa.Function{m.muc, m.sft, m.delayed} {
-		for _, a := range m.ai.ByFn[fn] {
-			if a.Field != "multiEndpoint.current" || a.What != "store" {
-				continue
-			}
-			st := a.Instr.(*ssa.Store)
-			construct := fmt.Sprintf("current-store in %s", fname(fn))
-			just, why := justifiedStore(m, fn, st)
-			if just {
-				c.ok("C14.revalidate", construct, p.ipos(st), why)
-			} else {
-				c.fail("C14.revalidate", construct, p.ipos(st), why)
-			}
-		}
-	}
-	delayedSwitchRule(m, c)
 }
 
 // statusDomainClosed: all stores to endpoint.status hold one of the three status constants.
@@ -424,11 +433,11 @@ func statusRules(m *mectx, c *Ctx, R func(string) string) {
 			for _, call := range m.callsIn(m.seaInner, m.setState) {
 				if v, isC := constInt(call.Call.Args[1]); isC && v == m.available {
 					nav++
-					eq, w2 := cs.Equiv(cs.OnlyNamed(cs.Reach(call)), cs.And(A("known"), A("avail")))
+					eq, w2 := cs.EquivStrict(cs.Reach(call), cs.And(A("known"), A("avail")))
 					c.check(eq && isEE(call.Call.Args[0]), R("C14.cancel"), "setEndpointAvailability: available report", p.ipos(call), "setState(ee, available) ⇔ known endpoint ∧ report says available (pending recovery timer stopped and outdated)", "an availability report does not always mark the endpoint available: "+w2)
 				}
 				if v, isC := constInt(call.Call.Args[1]); isC && v == m.unavailable {
-					eq, w2 := cs.Equiv(cs.OnlyNamed(cs.Reach(call)), cs.And(A("known"), cs.Not(A("avail")), A("wasAvailable"), A("noRecovery")))
+					eq, w2 := cs.EquivStrict(cs.Reach(call), cs.And(A("known"), cs.Not(A("avail")), A("wasAvailable"), A("noRecovery")))
 					c.check(eq, R("C14.cancel"), "setEndpointAvailability: immediate unavailable", p.ipos(call), "setState(ee, unavailable) ⇔ known ∧ unavailable report ∧ was available ∧ no recovery timeout", "immediate unavailability is applied under the wrong condition: "+w2)
 				}
 			}
